@@ -75,8 +75,8 @@ structure CInv (s : St) : Prop where
   rdec : ∀ c q p ae, s.r = .respDecode c q p ae → (s.callers c).seq = q ∧ q ≠ -1
   rdel : ∀ c q p ae, s.r = .respDeliver c q p ae → (s.callers c).seq = q ∧ q ≠ -1 ∧ (s.callers c).bufSeq = some q
 
-theorem CInv_init : CInv init := by
-  constructor <;> simp [init]
+theorem CInv_init (f p : Nat → Nat) : CInv (initSz f p) := by
+  constructor <;> simp [initSz]
   constructor <;> simp
 
 theorem COk_mono {n m : Nat} {cl : Caller} (h : COk n cl) (hnm : n ≤ m) : COk m cl := by
